@@ -975,7 +975,7 @@ FAILURE_KINDS = ['cfg_invalid_yaml', 'cfg_no_default_profile', 'cfg_dup_module',
                  'overlay_baseline_missing', 'overlay_conflict', 'overlay_patch_fail', 'overlay_mixed',
                  'ro_target', 'ro_repo', 'ro_state', 'target_is_file', 'policy_violation', 'policy_cfg_invalid', 'policy_cfg_unsupported',
                  'policy_pack_missing', 'git_detached', 'no_remote', 'no_git_binary', 'snapshot_corrupt', 'events_garbage',
-                 'import_conflict', 'path_too_long', 'unicode_long_id']
+                 'import_conflict', 'path_too_long', 'unicode_long_id', 'trailing_slash_paths']
 
 def build_failure_world(kind, tag='f'):
     """A world in which a given failure class is provoked.  Built on the 'deployed' / 'pending' world."""
@@ -1092,6 +1092,13 @@ def build_failure_world(kind, tag='f'):
             man['modules'].append({'id': 'skill:' + 'y' * 300, 'type': 'skill', 'tags': ['base'], 'targets': ['codex'],
                                    'source': {'local_path': {'path': 'modules/skills/helper'}}})
             W.write_config(sb.repo, man)
+        elif kind == 'trailing_slash_paths':
+            # directories spelled with a trailing separator (what shell completion produces): --repo <dir>/ and
+            # codex_home: "<dir>/" - every echoed path keeps the user's spelling in both twins
+            opts = man['targets'].setdefault('codex', {'mode': 'files', 'scope': 'user', 'options': {}}).setdefault('options', {})
+            opts['codex_home'] = (opts.get('codex_home') or os.path.join(sb.home, '.codex')).rstrip('/') + '/'
+            W.write_config(sb.repo, man)
+            w.extra_global = ['--repo', sb.repo + '/']
         elif kind == 'unicode_long_id':
             # long module ids made of multi-byte letters, at several byte alignments (file-system keys, overlay
             # directory names and output names are derived from ids by sanitising and truncating)
